@@ -44,6 +44,8 @@ func nxConfigs(part string, thorough bool) []*nxCfg {
 		return []*nxCfg{
 			{Name: "elect-crash", N: 3, MaxDev: pick(2, 3), Script: []string{"T1", "H1", "W1", "H1"}, Timeouts: 2, Crashes: 2, Drops: 2, Writes: 1, Horizon: 120},
 			{Name: "warm-write-crash", N: 3, MaxDev: pick(2, 3), Prefix: nxWarm, Script: []string{"W1", "W2", "H1", "T2", "H2", "W2"}, Timeouts: 1, Crashes: 2, Drops: 2, Reorders: 1, Horizon: 120},
+			{Name: "pebble-two-candidates", N: 3, Store: "pebble", MaxDev: pick(1, 2), Prefix: nxWarm, Script: []string{"M4", "W1", "E", "T3", "H1", "W1", "C2", "H1"}, Timeouts: 1, Crashes: 1, Horizon: 150},
+			{Name: "tan-two-candidates", N: 3, Store: "tan", MaxDev: pick(1, 2), Prefix: nxWarm, Script: []string{"M4", "W1", "E", "T3", "H1", "W1", "C2", "H1"}, Timeouts: 1, Crashes: 1, Horizon: 150},
 			{Name: "prevote-crash", N: 3, PreVote: true, CheckQuorum: true, MaxDev: pick(2, 3), Script: []string{"T1", "H1", "W1", "T2", "H2"}, Timeouts: 1, Crashes: 2, Drops: 2, Horizon: 120},
 		}
 	case "c11":
